@@ -17,7 +17,11 @@ structure LocGlue where
   kPath : Str
   kQuery : Str
   kOpaq : Str
+  kForceQuery : Bool := false
   deriving Repr
+
+/-- the URL key of the (resolved) Location / Content-Location URL -/
+def LocGlue.key (g : LocGlue) : Str := makeURLKeyQ g.kScheme g.kHost g.kPath g.kQuery g.kOpaq g.kForceQuery
 
 structure Cfg where
   glue : Glue
@@ -54,7 +58,7 @@ def invalidateLocation (cfg : Cfg) (req : Req) (respH : Header) (hdr : Str) (del
     | none => cont deleted
     | some g =>
       if sameOrigin req.scheme req.host g.scheme g.host then
-        let locKey := makeURLKeyOf g.kScheme g.kHost g.kPath g.kQuery g.kOpaq
+        let locKey := g.key
         Prog.getRefs locKey fun refs =>
           delMany deleted ((refs.getD []).map (·.id)) fun d => delOnce d locKey cont
       else cont deleted
